@@ -8,7 +8,7 @@ from ..nf import Rat, C
 from ..source import Unsupported, AnchorError, norm, walk_no_nested
 from ..xlate import Interp, Obj, ListV, Elem, SumV, Raised, RankOrder, DictV, Frame, _RaisedExc
 from .. import fitmodel
-from .common import same, show, coeff_vector, sub
+from .common import same, show, coeff_vector, sub, pub
 from .rxnfix import get_public
 
 NASA = 'pmutt.empirical.nasa'
@@ -122,13 +122,13 @@ def evaluator(I, repo, fam, q, a, T, units=None):
 def vectors_of(I, fam, o):
     """[(label, coefficient vector)] of a fitted species, through its public attributes"""
     if fam == 'nasa':
-        return [('a_low', o.attrs.get('a_low')), ('a_high', o.attrs.get('a_high'))]
+        return [('a_low', pub(o, 'a_low')), ('a_high', pub(o, 'a_high'))]
     if fam == 'nasa9':
         segs = get_public(I, o, 'nasas')
         if not isinstance(segs, ListV):
             return []
-        return [('nasas[%d].a' % k, s_.attrs.get('a')) for k, s_ in enumerate(segs.items)]
-    return [('a', o.attrs.get('a'))]
+        return [('nasas[%d].a' % k, pub(s_, 'a')) for k, s_ in enumerate(segs.items)]
+    return [('a', pub(o, 'a'))]
 
 
 def fit_of(I, vec, cp_slots):
@@ -396,10 +396,10 @@ def candidate_search(run, repo, tables):
             run.fail('DATAFLOW.T_mid', 'nasa.Nasa.from_data', key, 'from_data does not build a species: %s' % show(o, 120),
                      owner.module, fn)
             continue
-        tm = o.attrs.get('T_mid')
+        tm = pub(o, 'T_mid')
         okv = True
         why = ''
-        for label, vec, side in (('a_low', o.attrs.get('a_low'), 'hi'), ('a_high', o.attrs.get('a_high'), 'lo')):
+        for label, vec, side in (('a_low', pub(o, 'a_low'), 'hi'), ('a_high', pub(o, 'a_high'), 'lo')):
             ks = fit_of(I, vec, cp_slots) if isinstance(vec, ListV) else []
             if len(ks) != 1:
                 okv, why = False, '%s does not come from one fit' % label
@@ -518,12 +518,12 @@ def bounded_candidates(run, repo, tables):
             run.fail('DATAFLOW.T_mid', 'nasa.Nasa.from_data', key, 'from_data does not build a species: %s'
                      % show(o, 120), owner.module, fn)
             continue
-        tm = o.attrs.get('T_mid')
+        tm = pub(o, 'T_mid')
         why = []
         if _num(tm) != tvals[win]:
             why.append('the species is built with T_mid=%s' % show(tm))
         split = None
-        for label, vec, side in (('a_low', o.attrs.get('a_low'), 'low'), ('a_high', o.attrs.get('a_high'), 'high')):
+        for label, vec, side in (('a_low', pub(o, 'a_low'), 'low'), ('a_high', pub(o, 'a_high'), 'high')):
             ks = fit_of(I, vec, cp_slots) if isinstance(vec, ListV) else []
             if len(ks) != 1:
                 why.append('%s does not come from one fit' % label)
@@ -638,7 +638,7 @@ def default_break_search(run, repo):
             run.fail('REF.break-inside', 'nasa.Nasa.from_data', key, 'from_data does not build a species: %s'
                      % show(o, 120), owner.module, fn)
             continue
-        tm = o.attrs.get('T_mid')
+        tm = pub(o, 'T_mid')
         order = I.order
         lo_ok = order(tm, '>', D.sym('MIN{(Tdata)}')) if isinstance(tm, Rat) else None
         hi_ok = order(tm, '<', D.sym('MAX{(Tdata)}')) if isinstance(tm, Rat) else None
@@ -688,7 +688,7 @@ def nasa7_pipeline(run, repo, tables):
                          % show(sp, 120), owner.module, fn)
                 n += 1
                 continue
-            al, ah = sp.attrs.get('a_low'), sp.attrs.get('a_high')
+            al, ah = pub(sp, 'a_low'), pub(sp, 'a_high')
             H = lambda a, T: evaluator(I, repo, 'nasa', 'HoRT', a, T)
             S = lambda a, T: evaluator(I, repo, 'nasa', 'SoR', a, T)
             seg = al if rank <= 3 else ah
@@ -703,7 +703,7 @@ def nasa7_pipeline(run, repo, tables):
             run.check(okS, 'ANCHOR.S', 'nasa.Nasa.from_data', label,
                       'S/R of the fitted species at T_ref (%s segment) is %s, not SoR_ref'
                       % (segname, show(S(seg, Tref))), owner.module, fn)
-            tm = sp.attrs.get('T_mid')
+            tm = pub(sp, 'T_mid')
             run.check(same(H(al, tm), H(ah, tm)), 'CONT.H', 'nasa.Nasa.from_data', label,
                       'H is discontinuous at T_mid: low %s vs high %s' % (show(H(al, tm)), show(H(ah, tm))),
                       owner.module, fn)
@@ -717,10 +717,10 @@ def nasa7_pipeline(run, repo, tables):
             run.check(want_tm is None or same(tm, want_tm), 'DATAFLOW.T_mid', 'nasa.Nasa.from_data', label,
                       'the species is built with T_mid=%s, not the break temperature the data were split at' % show(tm),
                       owner.module, fn)
-            run.check(same(sp.attrs.get('T_low'), D.sym('MIN{(Tdata)}')) and
-                      same(sp.attrs.get('T_high'), D.sym('MAX{(Tdata)}')), 'DATAFLOW.bounds', 'nasa.Nasa.from_data',
+            run.check(same(pub(sp, 'T_low'), D.sym('MIN{(Tdata)}')) and
+                      same(pub(sp, 'T_high'), D.sym('MAX{(Tdata)}')), 'DATAFLOW.bounds', 'nasa.Nasa.from_data',
                       label, 'temperature bounds are (%s, %s), not the span (min, max) of the data'
-                      % (show(sp.attrs.get('T_low')), show(sp.attrs.get('T_high'))), owner.module, fn)
+                      % (show(pub(sp, 'T_low')), show(pub(sp, 'T_high'))), owner.module, fn)
             n += 7
     return n
 
@@ -760,7 +760,7 @@ def nasa7_fallback_break(run, repo):
             run.fail('REF.break-inside', 'nasa.Nasa.from_data', key, 'from_data does not build a species: %s'
                      % show(o, 120), owner.module, fn)
             continue
-        lo, tm, hi = o.attrs.get('T_low'), o.attrs.get('T_mid'), o.attrs.get('T_high')
+        lo, tm, hi = pub(o, 'T_low'), pub(o, 'T_mid'), pub(o, 'T_high')
         vals = [v.const_value() if isinstance(v, Rat) and v.is_const() else (Fr(0) if isinstance(v, Rat) and v.iszero()
                                                                               else None) for v in (lo, tm, hi)]
         ok = None not in vals and vals[0] == t_lo and vals[2] == t_hi and vals[0] < vals[1] < vals[2]
@@ -802,11 +802,11 @@ def nasa9_pipeline(run, repo, tables, max_seg):
                 continue
             H = lambda a, T: evaluator(I, repo, 'nasa9', 'HoRT', a, T)
             S = lambda a, T: evaluator(I, repo, 'nasa9', 'SoR', a, T)
-            A = [s.attrs['a'] for s in segs.items]
+            A = [pub(s, 'a') for s in segs.items]
             if j == 0:
                 # segment bounds are consecutive pairs of [min(T), *T_mid, max(T)]
                 bounds = [D.sym('MIN{(Tdata)}')] + list(tmid.items) + [D.sym('MAX{(Tdata)}')]
-                ok = all(same(s.attrs.get('T_low'), bounds[k]) and same(s.attrs.get('T_high'), bounds[k + 1])
+                ok = all(same(pub(s, 'T_low'), bounds[k]) and same(pub(s, 'T_high'), bounds[k + 1])
                          for k, s in enumerate(segs.items))
                 run.check(ok, 'DATAFLOW.bounds', 'nasa.Nasa9.from_data', 'segments:%d' % nseg + tag,
                           'segment k must span [T_k, T_k+1] of [min(T), *T_mid, max(T)]', owner.module, fn)
@@ -856,7 +856,7 @@ def nasa9_pipeline(run, repo, tables, max_seg):
                          'expected %d segment objects, got %s' % (nseg, show(segs2 if segs2 is not None else o2)),
                          owner.module, fn)
                 continue
-            A2 = [s.attrs['a'] for s in segs2.items]
+            A2 = [pub(s, 'a') for s in segs2.items]
             Tref2 = D.sym('T_ref2')
             run.check(same(H(A2[0], Tref2), D.sym('HoRT_ref2')), 'ANCHOR.H', 'nasa.Nasa9.from_data', key2,
                       'H/RT(T_ref) of the second species (T_ref in its first interval) is %s, not its HoRT_ref'
@@ -919,7 +919,7 @@ def shomate_pipeline(run, repo, tables):
                          % show(sp, 120), owner.module, fn)
                 n += 1
                 continue
-            a = sp.attrs.get('a')
+            a = pub(sp, 'a')
             H = evaluator(I, repo, 'shomate', 'HoRT', a, Tref, units)
             S = evaluator(I, repo, 'shomate', 'SoR', a, Tref, units)
             shared = ' (read after a second species was fitted in the same process)' if not which else ''
@@ -931,8 +931,8 @@ def shomate_pipeline(run, repo, tables):
             run.check(isinstance(a, ListV) and len(a) == 8 and only_fit_atoms(a, cp_slots), 'DATAFLOW.cp-slots',
                       'shomate.Shomate.from_data', key,
                       'a heat-capacity coefficient was modified while anchoring H and S', owner.module, fn)
-            run.check(same(sp.attrs.get('T_low'), D.sym('MIN{(Tdata)}')) and
-                      same(sp.attrs.get('T_high'), D.sym('MAX{(Tdata)}')),
+            run.check(same(pub(sp, 'T_low'), D.sym('MIN{(Tdata)}')) and
+                      same(pub(sp, 'T_high'), D.sym('MAX{(Tdata)}')),
                       'DATAFLOW.bounds', 'shomate.Shomate.from_data', key,
                       'temperature bounds are not the span of the data', owner.module, fn)
             run.check(same(get_public(I, sp, 'units'), units), 'DATAFLOW.units', 'shomate.Shomate.from_data', key,
